@@ -30,6 +30,7 @@ PROP = {
                      ["solutions_structural_checked", "solutions_geometric_checked", "s_vertices_checked", "s3_vertices_checked",
                       "g2g5_triples", "g3_edge_pairs", "g4_nest_pairs_point_tested", "g6_vertices", "g7_reunions",
                       "geo_nonempty_gp", "geo_nonempty_rect", "cls_zoo", "cls_rand"]),
+    "timeout": _q(240, 3600),
     "jobs": [
         {"mon": "mon_c03", "cfg": "plain", "cases": _q(50000, 1500000)},
         {"mon": "mon_c03", "cfg": "hp", "cases": _q(30000, 900000), "seed_off": 1000003},
